@@ -510,6 +510,13 @@ func writeEvidence(id, tier string, seed int, spec *PropSpec, ev *evidenceExtra,
 				}
 			}
 		}
+		triv := 0
+		for _, r := range ev.runs {
+			if r.x != nil {
+				triv += r.x.Trivial
+			}
+		}
+		cov["obligations_folded_to_true_by_the_generator"] = triv
 		cov["units"] = units
 		cov["discharged_by_backend"] = byBackend
 		for _, a := range keys(ev.notes.Assumed) {
